@@ -175,6 +175,45 @@ def sample_scenarios(trace, out, maxlines, seed):
     return len(pick), sum(len(sc[k]) for k in pick)
 
 
+def ebr_strict_validate(trace, threads, timeout_s=3000):
+    """Step-relation validation of an EBR trace (TraceEbrStrict.tla). Returns dict(accepted, lines, matched, scenario, states, strict_lines)."""
+    meta = os.path.join(WORK, "tlc", "est_%d_%s" % (os.getpid(), hashlib.md5(trace.encode()).hexdigest()[:8]))
+    shutil.rmtree(meta, ignore_errors=True)
+    os.makedirs(meta, exist_ok=True)
+    cmd = ["timeout", str(timeout_s), "tlc", "-workers", "1", "-metadir", meta, "-cleanup", "-noGenerateSpecTE",
+           "-config", "TraceEbrStrict_t%d.cfg" % threads, "TraceEbrStrict.tla"]
+    rc, out = sh(cmd, cwd=SPECS, env={"TRACE": trace, "JAVA_TOOL_OPTIONS": "-Xss1g -Xmx6g -Dtlc2.tool.queue.IStateQueue=StateDeque"})
+    shutil.rmtree(meta, ignore_errors=True)
+    m = STRICT_RE.search(out)
+    if not m:
+        raise ToolError("strict EBR trace validation did not complete (rc=%d):\n%s" % (rc, out[-3000:]))
+    # how many lines were held to the step relation (not trusted / loose / outside the vocabulary): same rule as the spec
+    sup = {"pin", "unpin", "react", "react_after", "react_after_panic", "flush", "defer", "advance", "hdrop"}
+    strict_lines, loose, ext = 0, False, set()
+    for line in open(trace):
+        r = json.loads(line)
+        if r["k"] == "reset":
+            loose, ext = False, set()
+            continue
+        trusted = r["k"] in ("fin", "abort") or r["nest"] or r["mask"] != 2
+        loose = loose or trusted
+        if loose:
+            continue
+        if r["k"] == "start":
+            if r["opn"] in sup:
+                ext.discard(r["t"])
+                strict_lines += 1
+            else:
+                ext.add(r["t"])
+        elif r["k"] == "step" and r["t"] not in ext:
+            strict_lines += 1
+    ms = re.search(r"(\d+) states generated, (\d+) distinct states found", out)
+    states = int(ms.group(2)) if ms else 0
+    if m.group(1) == "ACCEPTED":
+        return {"accepted": True, "lines": int(m.group(2)), "matched": int(m.group(2)), "scenario": None, "states": states, "strict_lines": strict_lines}
+    return {"accepted": False, "matched": int(m.group(2)), "lines": int(m.group(3)), "scenario": int(m.group(4)), "states": states, "strict_lines": strict_lines}
+
+
 def strict_validate(trace, threads, timeout_s=3000):
     """Step-relation validation (TraceCircStrict.tla): every line must be explained by an action of Circ.tla.
     Returns dict(accepted, lines, matched, scenario, states)."""
